@@ -125,10 +125,18 @@ func c02BuilderMethod(fn *ssa.Function) string {
 type c02Origin struct {
 	fr     *c02Frame
 	script *ssa.Call // the (*ScriptBuilder).Script call
+	copied bool      // the bytes were copied into fresh memory on the way to the caller
+}
+
+// c02Builder is what c02Chain learns about the builder object itself (for R5).
+type c02Builder struct {
+	root    string // "fresh" (created in this call) or "shared: <where from>"
+	fresh   bool
+	escapes []string // where the builder object is handed to (sync.Pool.Put, a global, a field, the caller)
 }
 
 // c02ScriptOrigins finds the ScriptBuilder.Script calls whose first result is v.
-func c02ScriptOrigins(w *an.World, v ssa.Value, idx int, fr *c02Frame, seen map[ssa.Value]bool) (out []c02Origin, problems []string) {
+func c02ScriptOrigins(w *an.World, v ssa.Value, idx int, fr *c02Frame, seen map[ssa.Value]bool, copied bool) (out []c02Origin, problems []string) {
 	if seen[v] {
 		return nil, nil
 	}
@@ -141,21 +149,39 @@ func c02ScriptOrigins(w *an.World, v ssa.Value, idx int, fr *c02Frame, seen map[
 		return nil, []string{"script is the constant " + x.String()}
 	case *ssa.Phi:
 		for _, e := range x.Edges {
-			o, p := c02ScriptOrigins(w, e, idx, fr, seen)
+			o, p := c02ScriptOrigins(w, e, idx, fr, seen, copied)
 			out, problems = append(out, o...), append(problems, p...)
 		}
 		return
 	case *ssa.Extract:
 		if c, ok := x.Tuple.(*ssa.Call); ok {
-			return c02ScriptOriginsCall(w, c, x.Index, fr, seen)
+			return c02ScriptOriginsCall(w, c, x.Index, fr, seen, copied)
 		}
 	case *ssa.Call:
-		return c02ScriptOriginsCall(w, x, 0, fr, seen)
+		return c02ScriptOriginsCall(w, x, 0, fr, seen, copied)
+	case *ssa.MakeSlice:
+		// dst := make([]byte, n); copy(dst, s); return dst
+		if x.Referrers() != nil {
+			for _, r := range *x.Referrers() {
+				if cc, ok := r.(*ssa.Call); ok && w.Info(cc).Name == "builtin:copy" && len(cc.Call.Args) == 2 && cc.Call.Args[0] == ssa.Value(x) {
+					o, p := c02ScriptOrigins(w, cc.Call.Args[1], 0, fr, seen, true)
+					out, problems = append(out, o...), append(problems, p...)
+				}
+			}
+			if len(out)+len(problems) > 0 {
+				return
+			}
+		}
+	case *ssa.Slice:
+		// s[:] / s[:n] of the same backing array: still the same memory
+		return c02ScriptOrigins(w, x.X, idx, fr, seen, copied)
+	case *ssa.ChangeType:
+		return c02ScriptOrigins(w, x.X, idx, fr, seen, copied)
 	case *ssa.UnOp:
 		if al, ok := x.X.(*ssa.Alloc); ok && x.Op == token.MUL && al.Referrers() != nil {
 			for _, r := range *al.Referrers() {
 				if s, ok := r.(*ssa.Store); ok && s.Addr == al {
-					o, p := c02ScriptOrigins(w, s.Val, idx, fr, seen)
+					o, p := c02ScriptOrigins(w, s.Val, idx, fr, seen, copied)
 					out, problems = append(out, o...), append(problems, p...)
 				}
 			}
@@ -165,13 +191,20 @@ func c02ScriptOrigins(w *an.World, v ssa.Value, idx int, fr *c02Frame, seen map[
 	return nil, []string{fmt.Sprintf("script value of unsupported form %T in %s", v, w.FuncName(fr.fn))}
 }
 
-func c02ScriptOriginsCall(w *an.World, c *ssa.Call, idx int, fr *c02Frame, seen map[ssa.Value]bool) (out []c02Origin, problems []string) {
+func c02ScriptOriginsCall(w *an.World, c *ssa.Call, idx int, fr *c02Frame, seen map[ssa.Value]bool, copied bool) (out []c02Origin, problems []string) {
+	// copies into fresh memory: append(nil/empty, s...), bytes.Clone(s), slices.Clone(s)
+	switch name := w.Info(c).Name; {
+	case name == "builtin:append" && len(c.Call.Args) == 2 && c02FreshEmpty(c.Call.Args[0]):
+		return c02ScriptOrigins(w, c.Call.Args[1], 0, fr, seen, true)
+	case (name == "func:bytes.Clone" || strings.HasPrefix(name, "func:slices.Clone")) && len(c.Call.Args) == 1:
+		return c02ScriptOrigins(w, c.Call.Args[0], 0, fr, seen, true)
+	}
 	callee := c.Call.StaticCallee()
 	if callee == nil {
 		return nil, []string{"script comes from the dynamic call " + w.Info(c).Name}
 	}
 	if c02BuilderMethod(callee) == "Script" && idx == 0 {
-		return []c02Origin{{fr, c}}, nil
+		return []c02Origin{{fr, c, copied}}, nil
 	}
 	if w.InModule(callee) && callee.Blocks != nil && fr.depth() < 6 {
 		for x := fr; x != nil; x = x.parent {
@@ -182,13 +215,42 @@ func c02ScriptOriginsCall(w *an.World, c *ssa.Call, idx int, fr *c02Frame, seen 
 		child := &c02Frame{fn: callee, site: c, parent: fr}
 		for _, r := range an.Returns(callee) {
 			if idx < len(r.Results) {
-				o, p := c02ScriptOrigins(w, r.Results[idx], idx, child, seen)
+				o, p := c02ScriptOrigins(w, r.Results[idx], idx, child, seen, copied)
 				out, problems = append(out, o...), append(problems, p...)
 			}
 		}
 		return
 	}
 	return nil, []string{"script comes from the opaque call " + w.Info(c).Name}
+}
+
+// c02FreshEmpty: nil, []byte{} or make([]byte, 0, …): appending to it allocates fresh memory.
+func c02FreshEmpty(v ssa.Value) bool {
+	switch x := v.(type) {
+	case *ssa.Const:
+		return x.Value == nil
+	case *ssa.ChangeType:
+		return c02FreshEmpty(x.X)
+	case *ssa.Convert:
+		return c02FreshEmpty(x.X)
+	case *ssa.MakeSlice:
+		n, ok := an.ConstInt(x.Len)
+		return ok && n == 0
+	case *ssa.Slice:
+		if al, ok := x.X.(*ssa.Alloc); ok {
+			if pt, ok := al.Type().Underlying().(*types.Pointer); ok {
+				if at, ok := pt.Elem().Underlying().(*types.Array); ok {
+					if at.Len() == 0 {
+						return true
+					}
+					if h, ok := an.ConstInt(x.High); ok && x.High != nil && h == 0 {
+						return true
+					}
+				}
+			}
+		}
+	}
+	return false
 }
 
 // c02Elem is one element of an extracted builder chain.
@@ -217,12 +279,28 @@ func (e c02Elem) String() string {
 
 // c02Chain extracts the ordered builder calls that lead to the Script call.
 func c02Chain(w *an.World, o c02Origin) (elems []c02Elem, problem string) {
+	elems, _, problem = c02ChainInfo(w, o)
+	return
+}
+
+func c02IsPoolCall(w *an.World, ci ssa.CallInstruction, method string) bool {
+	return w.Info(ci).Name == "func:(*sync.Pool)."+method
+}
+
+// c02ChainInfo extracts the ordered builder calls that lead to the Script call
+// and classifies where the builder object comes from and where it goes.
+func c02ChainInfo(w *an.World, o c02Origin) (elems []c02Elem, info *c02Builder, problem string) {
 	sc := o.script
+	info = &c02Builder{}
 	alias := map[ssa.Value]bool{}
 	var calls []*ssa.Call
 	seenCall := map[*ssa.Call]bool{}
 	work := []ssa.Value{sc.Call.Args[0]}
 	roots := 0
+	shared := func(desc string) {
+		roots++
+		info.root = "shared: " + desc
+	}
 	for len(work) > 0 {
 		v := work[len(work)-1]
 		work = work[:len(work)-1]
@@ -231,76 +309,157 @@ func c02Chain(w *an.World, o c02Origin) (elems []c02Elem, problem string) {
 		}
 		alias[v] = true
 		// backward: where does this builder value come from
-		c, ok := v.(*ssa.Call)
-		if !ok {
-			return nil, fmt.Sprintf("builder value of form %T (not a straight chain of builder calls)", v)
-		}
-		callee := c.Call.StaticCallee()
-		switch {
-		case callee != nil && c02BuilderMethod(callee) != "":
-			work = append(work, c.Call.Args[0])
-			if !seenCall[c] {
-				seenCall[c] = true
-				calls = append(calls, c)
-			}
-		case callee != nil && c02IsTxscript(callee) && callee.Name() == "NewScriptBuilder":
-			roots++
-			for _, a := range c.Call.Args {
-				if !an.IsNilConst(a) {
-					return nil, "NewScriptBuilder is called with options"
+		switch x := v.(type) {
+		case *ssa.Call:
+			callee := x.Call.StaticCallee()
+			switch {
+			case callee != nil && c02BuilderMethod(callee) != "":
+				work = append(work, x.Call.Args[0])
+				if !seenCall[x] {
+					seenCall[x] = true
+					calls = append(calls, x)
 				}
+			case callee != nil && c02IsTxscript(callee) && callee.Name() == "NewScriptBuilder":
+				roots++
+				info.root, info.fresh = "fresh", true
+				for _, a := range x.Call.Args {
+					if !an.IsNilConst(a) {
+						return nil, info, "NewScriptBuilder is called with options"
+					}
+				}
+			default:
+				return nil, info, "builder comes from " + w.Info(x).Name
 			}
+		case *ssa.Alloc:
+			// &txscript.ScriptBuilder{} / new(txscript.ScriptBuilder) in this call
+			roots++
+			info.root, info.fresh = "fresh", true
+		case *ssa.TypeAssert:
+			if gc, ok := x.X.(*ssa.Call); ok && c02IsPoolCall(w, gc, "Get") {
+				shared("obtained from " + c02Describe(w, gc) + " (a sync.Pool)")
+			} else if ld, ok := x.X.(*ssa.UnOp); ok && ld.Op == token.MUL {
+				if g, ok := ld.X.(*ssa.Global); ok {
+					shared("package-level variable " + g.Name())
+				} else {
+					return nil, info, "builder is type-asserted from " + c02Describe(w, x.X)
+				}
+			} else {
+				return nil, info, "builder is type-asserted from " + c02Describe(w, x.X)
+			}
+		case *ssa.UnOp:
+			if x.Op != token.MUL {
+				return nil, info, fmt.Sprintf("builder value of form %T", v)
+			}
+			switch a := x.X.(type) {
+			case *ssa.Global:
+				shared("package-level variable " + a.Name())
+			case *ssa.FieldAddr:
+				shared("struct field " + an.FieldName(a.X.Type(), a.Field))
+			default:
+				return nil, info, "builder is loaded from " + c02Describe(w, x.X)
+			}
+		case *ssa.Global:
+			// address of a package-level ScriptBuilder value
+			shared("package-level variable " + x.Name())
+		case *ssa.FieldAddr:
+			shared("struct field " + an.FieldName(x.X.Type(), x.Field))
+		case *ssa.Parameter:
+			shared("parameter " + x.Name() + " (the caller's builder)")
 		default:
-			return nil, "builder comes from " + w.Info(c).Name
+			return nil, info, fmt.Sprintf("builder value of form %T (not a straight chain of builder calls)", v)
 		}
 		// forward: every use of the builder value
 		if v.Referrers() == nil {
 			continue
 		}
 		for _, r := range *v.Referrers() {
-			rc, ok := r.(*ssa.Call)
-			if !ok {
-				return nil, fmt.Sprintf("builder value escapes into %T", r)
-			}
-			rcallee := rc.Call.StaticCallee()
-			m := c02BuilderMethod(rcallee)
-			if m == "" || len(rc.Call.Args) == 0 || rc.Call.Args[0] != v {
-				return nil, "builder value is passed to " + w.Info(rc).Name
-			}
-			for _, a := range rc.Call.Args[1:] {
-				if a == v {
-					return nil, "builder value is passed to " + w.Info(rc).Name
+			switch rc := r.(type) {
+			case *ssa.Call:
+				rcallee := rc.Call.StaticCallee()
+				m := c02BuilderMethod(rcallee)
+				if m == "" || len(rc.Call.Args) == 0 || rc.Call.Args[0] != v {
+					return nil, info, "builder value is passed to " + w.Info(rc).Name
 				}
-			}
-			if !seenCall[rc] {
-				seenCall[rc] = true
-				calls = append(calls, rc)
-			}
-			if m != "Script" {
-				work = append(work, rc)
+				for _, a := range rc.Call.Args[1:] {
+					if a == v {
+						return nil, info, "builder value is passed to " + w.Info(rc).Name
+					}
+				}
+				if !seenCall[rc] {
+					seenCall[rc] = true
+					calls = append(calls, rc)
+				}
+				if m != "Script" {
+					work = append(work, rc)
+				}
+			case *ssa.MakeInterface:
+				// boxed to be handed to sync.Pool.Put (directly or deferred)
+				if rc.Referrers() == nil {
+					continue
+				}
+				for _, rr := range *rc.Referrers() {
+					ci, ok := rr.(ssa.CallInstruction)
+					if ok && c02IsPoolCall(w, ci, "Put") {
+						info.escapes = append(info.escapes, "handed back to a sync.Pool (Put at "+w.Pos(rr.Pos())+")")
+						continue
+					}
+					if st, ok := rr.(*ssa.Store); ok {
+						if _, isG := st.Addr.(*ssa.Global); isG {
+							info.escapes = append(info.escapes, "stored in a package-level variable at "+w.Pos(st.Pos()))
+							continue
+						}
+					}
+					return nil, info, fmt.Sprintf("builder value escapes as an interface into %T", rr)
+				}
+			case *ssa.Store:
+				if rc.Val != v {
+					return nil, info, "builder value is written through"
+				}
+				switch a := rc.Addr.(type) {
+				case *ssa.Global:
+					info.escapes = append(info.escapes, "stored in package-level variable "+a.Name())
+				case *ssa.FieldAddr:
+					info.escapes = append(info.escapes, "stored in struct field "+an.FieldName(a.X.Type(), a.Field))
+				default:
+					return nil, info, "builder value is stored into a local"
+				}
+			case *ssa.Return:
+				info.escapes = append(info.escapes, "returned to the caller")
+			case *ssa.FieldAddr, *ssa.UnOp:
+				// a field of the fresh local struct is read/initialised: not a use of the builder value
+				if _, isAlloc := v.(*ssa.Alloc); !isAlloc {
+					return nil, info, fmt.Sprintf("builder value is used by %T", r)
+				}
+			default:
+				return nil, info, fmt.Sprintf("builder value escapes into %T", r)
 			}
 		}
 	}
 	if roots != 1 {
-		return nil, fmt.Sprintf("%d builder roots", roots)
+		return nil, info, fmt.Sprintf("%d builder roots", roots)
 	}
 	for _, c := range calls {
 		if c.Block() != sc.Block() {
-			return nil, "builder calls are spread over several basic blocks (conditional script)"
+			return nil, info, "builder calls are spread over several basic blocks (conditional script)"
 		}
 	}
 	sort.Slice(calls, func(i, j int) bool { return an.InstrIndex(calls[i]) < an.InstrIndex(calls[j]) })
+	sawReset := false
 	for _, c := range calls {
 		m := c02BuilderMethod(c.Call.StaticCallee())
 		if c == sc {
 			continue
 		}
 		if an.InstrIndex(c) > an.InstrIndex(sc) {
-			return nil, "builder call after Script()"
+			return nil, info, "builder call after Script()"
 		}
 		switch m {
+		case "Reset":
+			// everything added before is discarded: an empty builder from here on
+			elems = nil
+			sawReset = true
 		case "Script":
-			return nil, "more than one Script() call on the builder"
+			return nil, info, "more than one Script() call on the builder"
 		case "AddOp":
 			if n, ok := an.ConstInt(c.Call.Args[1]); ok {
 				elems = append(elems, c02Elem{Kind: "op", Val: n, Pos: c.Pos()})
@@ -335,10 +494,13 @@ func c02Chain(w *an.World, o c02Origin) (elems []c02Elem, problem string) {
 				elems = append(elems, e)
 			}
 		default:
-			return nil, "unsupported builder method " + m
+			return nil, info, "unsupported builder method " + m
 		}
 	}
-	return elems, ""
+	if !info.fresh && !sawReset {
+		return nil, info, "the builder is " + info.root + " and is used without Reset(): what it already contains is not known"
+	}
+	return elems, info, ""
 }
 
 // c02WideningInt: conversion src->dst between integer types that keeps every value.
@@ -887,6 +1049,7 @@ func runC02(c *an.Check) {
 	c.Rule("C02.R1", "the ScriptBuilder chain behind ParamsToTxScript's result equals the protocol template (opcodes and constant pushes by value, parameter slots passed unchanged, both maker slots the same parameter, four distinct parameters)")
 	c.Rule("C02.R2", "the template slots resolve, through the call chain, to hex(OpeningParams.MakerPubkey) / TakerPubkey / ClaimPaymentHash and the csv parameter of ParamsToTxScript, in these roles")
 	c.Rule("C02.R3", "CSV table btc=1008, lbtc/v6=60, lbtc/v7=10080; Bitcoin call sites pass only 1008, Liquid call sites pass the CSV field of the same OpeningParams; OpeningParams.CSV is only written from getTimelockPolicy().CSV")
+	c.Rule("C02.R5", "the script returned through ParamsToTxScript owns its bytes: ScriptBuilder.Script() returns the builder's internal buffer, so the builder must be created in the call and handed to nobody (no sync.Pool.Put, no global / field / return), or the result must be copied (append to nil/empty, bytes.Clone, copy into a fresh make) before it is returned")
 	c.Rule("C02.R4", "the three witness constructors return [sig‖ALL, preimage, ε, ε, script], [sig‖ALL, script], [takerSig‖ALL, makerSig‖ALL, ε, script]")
 	w := c.W
 
@@ -933,7 +1096,7 @@ func c02R1R2(c *an.Check, entry *ssa.Function, csvIdx int) {
 	var origins []c02Origin
 	var problems []string
 	for _, r := range an.Returns(entry) {
-		o, p := c02ScriptOrigins(w, r.Results[0], 0, root, map[ssa.Value]bool{})
+		o, p := c02ScriptOrigins(w, r.Results[0], 0, root, map[ssa.Value]bool{}, false)
 		origins, problems = append(origins, o...), append(problems, p...)
 	}
 	for _, p := range problems {
@@ -968,7 +1131,8 @@ func c02R1R2(c *an.Check, entry *ssa.Function, csvIdx int) {
 	for _, o := range origins {
 		cons := w.FuncName(o.fr.fn) + " script"
 		pos := w.Pos(o.script.Pos())
-		elems, problem := c02Chain(w, o)
+		elems, info, problem := c02ChainInfo(w, o)
+		c02R5(c, o, info, problem, cons+" result ownership", pos)
 		if problem != "" {
 			c.Unknown("C02.R1", cons, pos, "cannot extract the builder chain: "+problem)
 			continue
@@ -1033,6 +1197,22 @@ func c02R1R2(c *an.Check, entry *ssa.Function, csvIdx int) {
 	}
 	if r1ok > 0 { // without a script that matches the template R1 has already reported; R2 has nothing to bind
 		c.AtLeast("C02.R2", "resolved template slots", nSlots, 4)
+	}
+}
+
+// c02R5: the returned script must not alias memory that outlives the call and can be rewritten.
+func c02R5(c *an.Check, o c02Origin, info *c02Builder, problem, cons, pos string) {
+	switch {
+	case o.copied:
+		c.OK("C02.R5", cons, pos, "the Script() result is copied into fresh memory before it is returned")
+	case info != nil && info.root != "" && !info.fresh:
+		c.Bad("C02.R5", cons, pos, "the builder is "+info.root+" and ScriptBuilder.Script() returns its internal buffer, which is returned to the callers without a copy: the next script built with the same builder (for another swap, possibly concurrently) overwrites the bytes the caller still holds — the address / witness script derived later belongs to the other swap's keys")
+	case info != nil && info.fresh && len(info.escapes) > 0:
+		c.Bad("C02.R5", cons, pos, "the builder is created in this call but "+strings.Join(info.escapes, "; ")+" while the internal buffer returned by Script() is handed to the callers without a copy: whoever obtains the builder next rewrites the bytes the caller still holds")
+	case info != nil && info.fresh && problem == "":
+		c.OK("C02.R5", cons, pos, "the builder is created in this call and handed to nobody: the buffer returned by Script() is owned by the result")
+	default:
+		c.Unknown("C02.R5", cons, pos, "cannot tell where the builder comes from / goes to: "+problem)
 	}
 }
 
